@@ -38,6 +38,7 @@ type rigReq struct {
 	Form    map[string][]string `json:"form,omitempty"`
 	Body    string              `json:"body,omitempty"`
 	Deny    []string            `json:"deny,omitempty"` // scheme names the callback refuses
+	NilCtx  bool                `json:"nilCtx,omitempty"` // … and it refuses with a nil context
 }
 
 type rigIn struct {
@@ -155,12 +156,15 @@ func GleeceRequestAuthorization(ctx context.Context, %s, check runtime.SecurityC
 	rigrec.Auth(check.SchemaName, check.Scopes)
 	for _, d := range strings.Split(%s, ",") {
 		if d != "" && d == check.SchemaName {
+			if %s != "" {
+				return nil, &runtime.SecurityError{Message: "denied " + d, StatusCode: 403} // a refusal need not carry a context
+			}
 			return ctx, &runtime.SecurityError{Message: "denied " + d, StatusCode: 403}
 		}
 	}
 	return ctx, nil
 }
-`, engine, imp, projModule, ctxParam, hdr)
+`, engine, imp, projModule, ctxParam, hdr, strings.Replace(hdr, "X-Rig-Deny", "X-Rig-Nilctx", 1))
 }
 
 const rigMainSrc = `package main
@@ -198,6 +202,7 @@ type req struct {
 	Form    map[string][]string ` + "`json:\"form\"`" + `
 	Body    string              ` + "`json:\"body\"`" + `
 	Deny    []string            ` + "`json:\"deny\"`" + `
+	NilCtx  bool                ` + "`json:\"nilCtx\"`" + `
 }
 
 type resp struct {
@@ -227,6 +232,9 @@ func build(r req) *http.Request {
 	}
 	if len(r.Deny) > 0 {
 		hr.Header.Set("X-Rig-Deny", strings.Join(r.Deny, ","))
+	}
+	if r.NilCtx {
+		hr.Header.Set("X-Rig-Nilctx", "1")
 	}
 	return hr
 }
